@@ -264,6 +264,29 @@ def host_state_case(col, rng):
     col.add(None)
 
 
+def parameter_dependent_bijector_case(col, rng):
+    """x ~ Uniform(0, upper) re-parameterised automatically with the DEFAULT bijector Sigmoid(0, upper), upper a model variable: after `upper` is re-assigned
+    the prior total is the transformed density under the CURRENT bound (x = upper * sigmoid(t)), log_lik follows x, and prob = lik + prior"""
+    import tensorflow_probability.substrates.jax.bijectors as tfb
+    upper = lsl.Var(np.float32(1.0), name="upper")
+    x = lsl.param(np.float32(0.5), lsl.Dist(tfd.Uniform, low=0.0, high=upper), name="x")
+    x.auto_transform = True
+    y = lsl.obs(jnp.asarray(rng.normal(size=4), jnp.float32), lsl.Dist(tfd.Normal, loc=x, scale=1.0), name="y")
+    model = lsl.GraphBuilder().add(y).build_model()
+    bad = None
+    for up, t in ((1.0, 0.3), (3.0, 0.3), (3.0, -0.8)):
+        model.vars["upper"].value = np.float32(up)
+        model.vars["x_transformed"].value = np.float32(t)
+        b = tfb.Sigmoid(low=0.0, high=np.float32(up))
+        xv = float(b.forward(np.float32(t)))
+        want_prior = float(tfd.Uniform(0.0, np.float32(up)).log_prob(xv) + b.forward_log_det_jacobian(np.float32(t), event_ndims=0))
+        want_lik = float(np.sum(tfd.Normal(xv, 1.0).log_prob(np.asarray(model.vars["y"].value))))
+        got = (float(model.log_prior), float(model.log_lik), float(model.log_prob))
+        if not np.allclose(got, (want_prior, want_lik, want_prior + want_lik), rtol=2e-4, atol=2e-4):
+            bad = bad or f"upper = {up}, x_transformed = {t}: (log_prior, log_lik, log_prob) = {tuple(round(g, 4) for g in got)}, the joint density gives {(round(want_prior, 4), round(want_lik, 4), round(want_prior + want_lik, 4))}"
+    col.add(None if bad is None else {"sig": "native::totals::parameter_dependent_default_bijector", "what": bad, "input": {"model": "x ~ Uniform(0, upper), auto_transform; y ~ N(x, 1)"}})
+
+
 def repeated_build_case(col, rng):
     """one builder with user-supplied total nodes, built three times (copy=True, copy=True, copy=False): every model forwards the user nodes"""
     mu = lsl.param(np.float32(rng.normal()), lsl.Dist(tfd.Normal, loc=0.0, scale=2.0), name="mu")
@@ -312,6 +335,10 @@ def bounded(tier, seed):
     except Exception as e:
         col.add({"sig": f"native::totals::exception::{type(e).__name__}", "what": str(e)[:200], "input": {"scenario": "values assigned outside a model"}})
     try:
+        parameter_dependent_bijector_case(col, rng)
+    except Exception as e:
+        col.add({"sig": f"native::totals::exception::{type(e).__name__}", "what": str(e)[:200], "input": {"scenario": "parameter-dependent default bijector"}})
+    try:
         host_state_case(col, rng)
     except Exception as e:
         col.add({"sig": f"native::totals::exception::{type(e).__name__}", "what": str(e)[:200], "input": {"scenario": "host-side state restored"}})
@@ -339,5 +366,5 @@ def bounded(tier, seed):
             "rule": (CORE_RULE + "; " + f"BOUNDED: hierarchical model family (InverseGamma variance with/without auto-transform, Normal mean, degenerate-MVN coefficient prior via from_penalty, weak linear "
                      f"predictor, vector Normal response stored per observation or summed, an unflagged distributed variable, optional user log-lik node) x {reps} seeded value draws, each "
                      "checked after build and after re-assigning values: log_prob / log_lik / log_prior against direct TFP evaluation; one DistRegBuilder model (flags exactly-one, "
-                     f"prob = lik + prior = sum of distribution nodes); values assigned while the graph is outside a model (before build, after pop_nodes_and_vars) then built; literal hyper-parameters re-assigned through their anonymous Value nodes; a distribution node that belongs to no variable; a host-side (NumPy) state restored and one variable re-assigned (totals mix NumPy and JAX log-densities). seed={seed}"),
+                     f"prob = lik + prior = sum of distribution nodes); values assigned while the graph is outside a model (before build, after pop_nodes_and_vars) then built; literal hyper-parameters re-assigned through their anonymous Value nodes; a distribution node that belongs to no variable; an auto-transformed Uniform(0, upper) variable (default bijector depends on a model variable) after `upper` was re-assigned; a host-side (NumPy) state restored and one variable re-assigned (totals mix NumPy and JAX log-densities). seed={seed}"),
             "samples": [{"per_obs": False, "auto_transform": True, "user_lik_node": False}], "exhaustive": False, "violations": col.violations}
